@@ -31,6 +31,49 @@ def _writes(node, rec):
     return [c for c in ast.walk(node) if isinstance(c, ast.Call) and isinstance(c.func, ast.Attribute) and c.func.attr == "write" and c.args and u(c.args[0]) == rec]
 
 
+def _nearest_for(n):
+    p = getattr(n, "parent", None)
+    while p is not None and not isinstance(p, (ast.For, ast.While)):
+        p = getattr(p, "parent", None)
+    return p
+
+
+def _dispatch_writes(loop, rec):
+    """writer_list[<haplotype of the read>].write(record): an indexed write directly in the input loop."""
+    return [c for c in _writes(loop, rec) if isinstance(c.func.value, ast.Subscript) and _nearest_for(c) is loop]
+
+
+def _fanout_writes(loop, rec):
+    """writes of the record inside an inner loop over the writers (the --add-untagged copies)."""
+    return [c for c in _writes(loop, rec) if _nearest_for(c) is not loop]
+
+
+def _fanout_index(w, wl=None):
+    """(index expression text paired with the written writer, writer-list text, first index) for a fan-out write, or None.
+    Forms: for j, x in enumerate(W[1:], start=1): x.write(r)  |  for x in W[1:]: x.write(r)  |  for j in range(1, len(W)): W[j].write(r)"""
+    par = _nearest_for(w)
+    if not isinstance(par, ast.For):
+        return None
+    it = par.iter
+    recv = w.func.value
+    if isinstance(it, ast.Call) and u(it.func) == "enumerate" and isinstance(par.target, ast.Tuple) and len(par.target.elts) == 2 and u(par.target.elts[1]) == u(recv):
+        start = it.args[1] if len(it.args) > 1 else None
+        for k in it.keywords:
+            if k.arg == "start":
+                start = k.value
+        src = it.args[0]
+        off = src.slice.lower.value if isinstance(src, ast.Subscript) and isinstance(src.slice, ast.Slice) and isinstance(src.slice.lower, ast.Constant) and src.slice.upper is None else 0
+        base = u(src.value) if isinstance(src, ast.Subscript) and isinstance(src.slice, ast.Slice) else u(src)
+        if (start.value if isinstance(start, ast.Constant) else 0) == off:
+            return u(par.target.elts[0]), base, off
+        return None
+    if isinstance(it, ast.Subscript) and isinstance(it.slice, ast.Slice) and isinstance(it.slice.lower, ast.Constant) and it.slice.upper is None and u(par.target) == u(recv):
+        return None, u(it.value), it.slice.lower.value
+    if isinstance(it, ast.Call) and u(it.func) == "range" and len(it.args) == 2 and isinstance(it.args[0], ast.Constant) and isinstance(recv, ast.Subscript) and u(recv.slice) == u(par.target) and u(it.args[1]) == "len(%s)" % u(recv.value):
+        return u(par.target), u(recv.value), it.args[0].value
+    return None
+
+
 def r1(ctx):
     run = ctx.func(MOD + ".run_split")
     cfg = ctx.cfg(run)
@@ -38,7 +81,7 @@ def r1(ctx):
     name, length, rec = [u(e) for e in loop.target.elts]
     head = cfg.node_of(loop)
     # dispatch write: indexed writer
-    disp = [c for c in _writes(loop, rec) if isinstance(c.func.value, ast.Subscript)]
+    disp = _dispatch_writes(loop, rec)
     ctx.require(len(disp) == 1, "dispatch write writer_list[haplotype].write(record) not found")
     dnode = cfg.node_containing(disp[0])
     # early exits
@@ -50,28 +93,33 @@ def r1(ctx):
     muts = [s for s in util.store_sites(loop) if s.root == rec]
     rebinds = [s for s, v in util.assignments_to(loop, rec) if s is not loop]
     ctx.ob(run.qual, "record-not-mutated", not muts and not rebinds, run.loc(muts[0].stmt) if muts else (run.loc(rebinds[0]) if rebinds else run.loc(loop)), "no store, delete, mutator call or rebinding of the record inside the loop" if not muts and not rebinds else "record is modified before it is written: %s" % (muts[0].text() if muts else u(rebinds[0])))
-    # skipping paths = documented continues only
-    G1 = {("discard_unknown_reads", True), ("%s in known_reads" % name, False)}
-    conts = [n for n in cfg.g.nodes if cfg.kind(n) == "continue" and n in cfg.loop_body_nodes(head) | set(cfg.g.nodes)]
-    conts = [n for n in conts if cfg.find_path(head, n) is not None and _inside(cfg.ast(n), loop)]
-    documented = set()
-    for cnode in conts:
-        ga = guard_atoms(cfg, cnode)
-        kind = None
-        if G1 <= ga:
-            kind = "unknown read discarded on request"
-        elif any(t.startswith("process_haplotype[") and not p for t, p in ga):
-            kind = "output for this haplotype not requested"
-        ok = kind is not None
-        if ok:
-            documented.add(cnode)
-        ctx.ob(run.qual, "skip:%s" % ";".join(sorted("%s%s" % ("" if p else "not ", t) for t, p in ga if t != "<iter> %s in %s" % (u(loop.target), u(loop.iter)))), ok, run.loc(cfg.ast(cnode)), "`continue` under a documented guard (%s)" % kind if ok else "`continue` skips the record under a guard that is not one of the two documented ones")
-    bad = None
-    for b in cfg.succ(head, "loop"):
-        p = cfg.find_path(b, head, avoid_nodes={dnode} | documented | {n for n in conts})
-        if p is not None:
-            bad = [head] + p
-    ctx.ob(run.qual, "every-other-path-writes", bad is None, run.loc(loop), "every path that is not a documented skip reaches the dispatch write" if bad is None else "a path through the loop body reaches neither the dispatch write nor a documented skip", cfg.describe_path(bad))
+    # skipping paths = the two documented reasons only, whatever the control-flow style (continue, nested if/else):
+    # every path of one iteration that does not perform the dispatch write must have established one of them
+    from sa import pathfx
+
+    try:
+        its = pathfx.iteration_summaries(cfg, loop)
+    except OverflowError:
+        its = None
+    if not its:
+        ctx.ob(run.qual, "every-other-path-writes", None, run.loc(loop), "cannot enumerate the paths of one iteration of the input loop")
+    else:
+        bad = None
+        kinds = set()
+        for ps in its:
+            wrote = any(e_[0] == "call" and isinstance(e_[1].func, ast.Attribute) and e_[1].func.attr == "write" and e_[3] is util.stmt_of(disp[0]) for e_ in ps.effects)
+            if wrote:
+                continue
+            if ps.has("discard_unknown_reads", True) and ps.has("%s in known_reads" % name, False):
+                kinds.add("unknown read discarded on request")
+            elif any(t.startswith("process_haplotype[") and not p_ for t, p_ in ps.atoms):
+                kinds.add("output for this haplotype not requested")
+            else:
+                bad = ps
+                break
+        for k_ in sorted(kinds):
+            ctx.ob(run.qual, "skip:%s" % k_, True, run.loc(loop), "a read is passed over without being written when: %s" % k_)
+        ctx.ob(run.qual, "every-other-path-writes", bad is None, run.loc(loop), "every path of an iteration (%d) that is not one of the documented skips reaches the dispatch write" % len(its) if bad is None else "a path through the loop body reaches neither the dispatch write nor a documented skip (conditions on it: %s)" % sorted("%s%s" % ("" if p_ else "not ", t) for t, p_ in bad.atoms if not t.startswith("<"))[:6], cfg.describe_path(bad.path) if bad else None)
     # both iterators yield every record
     for itname in ("_bam_iterator", "_fastq_string_iterator"):
         fi = ctx.func(MOD + "." + itname)
@@ -102,7 +150,7 @@ def r2(ctx):
     cfg = ctx.cfg(run)
     loop = input_loop(ctx, run)
     name, length, rec = [u(e) for e in loop.target.elts]
-    disp = [c for c in _writes(loop, rec) if isinstance(c.func.value, ast.Subscript)][0]
+    disp = _dispatch_writes(loop, rec)[0]
     idx = disp.func.value.slice
     wl = u(disp.func.value.value)
     d = util.single_def(run.node, idx.id) if isinstance(idx, ast.Name) else None
@@ -142,7 +190,15 @@ def r2(ctx):
     ok = len(none0) == 1 and isinstance(none0[0].value, ast.Constant) and none0[0].value.value == 0
     ctx.ob(pl.qual, "none-maps-to-0", ok, pl.loc(), "'none' maps to output 0 (untagged)" if ok else "'none' does not map to 0")
     rdefs = [v for _, v in util.assignments_to(pl.node, "readname_to_haplotype") if isinstance(v, ast.AST)]
-    ok = len(rdefs) >= 1 and all(isinstance(v, ast.Call) and u(v.func) == "defaultdict" and v.args and u(v.args[0]) == "int" for v in rdefs)
+    def is_dd_int(v, depth=0):
+        if isinstance(v, ast.Call) and u(v.func) in ("defaultdict", "collections.defaultdict") and v.args and u(v.args[0]) == "int":
+            return True
+        if isinstance(v, ast.Name) and depth < 3:
+            ds = [x for _, x in util.assignments_to(pl.node, v.id)]
+            return bool(ds) and all(isinstance(x, ast.AST) and is_dd_int(x, depth + 1) for x in ds)
+        return False
+
+    ok = len(rdefs) >= 1 and all(is_dd_int(v) for v in rdefs)
     ctx.ob(pl.qual, "unlisted-reads-default-to-0", ok, pl.loc(), "every construction of readname_to_haplotype is defaultdict(int): unlisted reads go to output 0" if ok else "readname_to_haplotype is not always a defaultdict(int)")
     st = [s for s in util.store_sites(pl.node) if s.kind == "subscript" and u(s.target.value) == "readname_to_haplotype"]
     ok = len(st) == 1 and u(st[0].target.slice) == "readname" and u(st[0].value) == "haplo_num" and isinstance(util.single_def(pl.node, "haplo_num"), ast.Subscript) and u(util.single_def(pl.node, "haplo_num")) == "haplotype_to_int[haplo_name]"
@@ -165,17 +221,12 @@ def r2(ctx):
     ph = [s for s in util.store_sites(run.node) if s.kind == "subscript" and u(s.target) == "process_haplotype[0]"]
     ok = len(ph) == 1 and isinstance(ph[0].value, ast.BoolOp) and isinstance(ph[0].value.op, ast.Or) and {u(v) for v in ph[0].value.values} == {"process_haplotype[0]", "add_untagged"}
     ctx.ob(run.qual, "add-untagged-enables-output-0", ok, run.loc(ph[0].stmt) if ph else run.loc(), "untagged reads are processed when --output-untagged or --add-untagged is given" if ok else "process_haplotype[0] is not `process_haplotype[0] or add_untagged`")
-    fan = [c for c in _writes(loop, rec) if not isinstance(c.func.value, ast.Subscript)]
+    fan = _fanout_writes(loop, rec)
     ok = False
     if len(fan) == 1:
-        fl = fan[0]
-        par = fl
-        while par is not None and not isinstance(par, ast.For):
-            par = par.parent
+        fx = _fanout_index(fan[0])
         ga = guard_atoms(cfg, cfg.node_containing(fan[0]))
-        it = par.iter if par is not None else None
-        src = it.args[0] if isinstance(it, ast.Call) and u(it.func) == "enumerate" else it
-        ok = par is not None and par is not loop and u(src) == "%s[1:]" % wl and ("0 == %s" % u(idx), True) in ga and ("add_untagged", True) in ga
+        ok = fx is not None and fx[1] == wl and fx[2] == 1 and ("0 == %s" % u(idx), True) in ga and ("add_untagged", True) in ga
     ctx.ob(run.qual, "add-untagged-fan-out", ok, run.loc(fan[0]) if fan else run.loc(loop), "untagged reads are copied to every writer of %s[1:] exactly under `haplotype == 0 and add_untagged`" % wl if ok else "the --add-untagged copy is not `for w in %s[1:]: w.write(record)` under `haplotype == 0 and add_untagged`" % wl)
 
 
@@ -187,28 +238,14 @@ def r3(ctx):
     head = cfg.node_of(loop)
     for w in _writes(loop, rec):
         wn = cfg.node_containing(w)
-        if isinstance(w.func.value, ast.Subscript):
+        if _nearest_for(w) is loop and isinstance(w.func.value, ast.Subscript):
             j = u(w.func.value.slice)
             scope_head = head
         else:
-            par = w
-            while par is not None and not isinstance(par, ast.For):
-                par = par.parent
+            par = _nearest_for(w)
             scope_head = cfg.node_of(par)
-            it = par.iter
-            # index variable paired with the writer: enumerate(writers[1:], start=1)
-            j = None
-            if isinstance(it, ast.Call) and u(it.func) == "enumerate" and isinstance(par.target, ast.Tuple) and u(par.target.elts[1]) == u(w.func.value):
-                start = None
-                if len(it.args) > 1:
-                    start = it.args[1]
-                for k in it.keywords:
-                    if k.arg == "start":
-                        start = k.value
-                src = it.args[0]
-                off = src.slice.lower.value if isinstance(src, ast.Subscript) and isinstance(src.slice, ast.Slice) and isinstance(src.slice.lower, ast.Constant) else 0
-                if (start.value if isinstance(start, ast.Constant) else 0) == off:
-                    j = u(par.target.elts[0])
+            fx = _fanout_index(w)
+            j = fx[0] if fx is not None else None
         want = "histogram_data[%s][%s]" % (j, length) if j is not None else None
         incs = {n for n in cfg.g.nodes if cfg.kind(n) == "stmt" and isinstance(cfg.ast(n), ast.AugAssign) and isinstance(cfg.ast(n).op, ast.Add) and u(cfg.ast(n).target) == want and isinstance(cfg.ast(n).value, ast.Constant) and cfg.ast(n).value.value == 1}
         ok = False
@@ -252,12 +289,12 @@ def r4(ctx):
     ctx.ob(fi.qual, "row-keys-sorted", ordered, fi.loc(loops[0]), "rows are in ascending length order" if ordered else "rows are not sorted")
     # columns: one count per output, in order
     pr = [c for c in ast.walk(loops[0]) if isinstance(c, ast.Call) and u(c.func) == "print"]
-    cnt = util.single_def(loops[0], "counts") if True else None
-    okc = False
-    for n in ast.walk(loops[0]):
-        if isinstance(n, ast.Assign) and u(n.targets[0]) == "counts" and isinstance(n.value, (ast.GeneratorExp, ast.ListComp)):
-            g = n.value.generators[0]
-            okc = u(g.iter) == util.params_of(fi.node)[0] and u(n.value.elt) == "%s[%s]" % (u(g.target), u(loops[0].target))
+    okc = None
+    if len(pr) == 1:
+        shp = util.printed_shape(fi.node, pr[0])
+        if shp is not None:
+            rowkey = u(loops[0].target)
+            okc = len(shp) == 2 and shp[0][0] == "one" and u(shp[0][1]) == rowkey and shp[1][0] == "each" and shp[1][3] == util.params_of(fi.node)[0] and u(shp[1][1]) == "%s[%s]" % (shp[1][2], rowkey)
     ctx.ob(fi.qual, "one-count-per-output", okc, fi.loc(loops[0]), "each row prints lc[length] for every output's counter in order" if okc else "row counts are not (lc[length] for lc in length_counts)")
 
 
